@@ -363,7 +363,7 @@ class C04(RenderProp):
     n_quick = 3600
     n_thorough = 60000
     required_theorems = ["C04_extract", "C04_matrix", "C04_wrapKind", "C04_escape_table", "C04_escape_safe", "C04_escape_hom", "C04_substitution",
-                         "C04_escape_eq_spec", "C04_print_escaped", "C04_code_escaped_scalar", "C04_render_escaped_end_to_end", "C04_escaped_in_every_position", "C04_escape_skeleton"]
+                         "C04_escape_eq_spec", "C04_print_escaped", "C04_code_escaped_scalar", "C04_render_escaped_end_to_end", "C04_render_raw_end_to_end", "C04_escaped_in_every_position", "C04_escape_skeleton"]
     rule = ("every string-carrying expression shape (variable, member, nested member, index, key index, concatenation both ways, conditional both "
             "branches, || default on undefined and on empty string, &&, function result, method result, join, template literal, array literal) x 7 positions "
             "(bare, between texts, inside tags, in if / each bodies, after unbuffered code, between brace texts) x hostile strings built from the five significant "
